@@ -321,6 +321,13 @@ func (r *vpRunner) block(d time.Duration) bool {
 			if _, has := after.Entries[in.Avs+"/"+o.Acc.String()]; has {
 				continue
 			}
+			// an operator that IS opted in (OptedInfo) must have a recorded value: the entries are
+			// the only index UpdateVotingPower walks, a missing one is never recomputed again
+			env.Eval("C05.opted-in-has-entry")
+			if c.App.OperatorKeeper.IsOptedIn(c.Ctx, o.Acc.String(), in.Avs) {
+				env.Violate("C05.opted-in-has-entry", "opted-in-without-entry", fmt.Sprintf("%s/%s is opted in but has no recorded USD value", in.Avs, o.Acc), r.hist)
+				continue
+			}
 			env.Eval("C05.not-opted-in")
 			v, err := c.App.OperatorKeeper.GetOperatorOptedUSDValue(c.Ctx, in.Avs, o.Acc.String())
 			if err == nil && (!v.TotalUSDValue.IsZero() || !v.ActiveUSDValue.IsZero() || !v.SelfUSDValue.IsZero()) {
@@ -340,6 +347,72 @@ func vpUndelegate(c *Chain, staker Actor, assetIdx, opIdx int, amt *big.Int, non
 			LzNonce: nonce, TxHash: common.BigToHash(new(big.Int).SetUint64(nonce + 1000)),
 		})
 	})
+}
+
+// vpUpdateAssets changes the asset list of a registered AVS through the real UpdateAVSInfo path
+// (UpdateAction). `ids` may be empty (non-nil): the AVS then supports no asset at all.
+func (r *vpRunner) updateAssets(avs string, ids []string, minSelf uint64, tag string) bool {
+	c := r.c
+	if ids == nil {
+		ids = []string{}
+	}
+	err := c.CachedDo(func(ctx sdk.Context) error {
+		return c.App.AVSManagerKeeper.UpdateAVSInfo(ctx, &avstypes.AVSRegisterOrDeregisterParams{
+			AvsAddress: avs, AssetID: ids, MinSelfDelegation: minSelf, CallerAddress: c.Funded.Acc.String(), Action: 3, // avskeeper.UpdateAction
+		})
+	})
+	r.env.Outcome(fmt.Sprintf("update-assets:%s:%v", tag, err == nil))
+	r.op(fmt.Sprintf("vp.note update-assets avs=%s n=%d min=%d (%s) ok=%v", avs, len(ids), minSelf, tag, err == nil), "ok")
+	if err == nil {
+		info, _ := c.App.AVSManagerKeeper.GetAVSInfo(c.Ctx, avs)
+		r.op(fmt.Sprintf("vp.avs %s %s %d", strings.ToLower(avs), info.Info.EpochIdentifier, info.Info.StartingEpoch), "ok")
+	}
+	return err == nil
+}
+
+// vpScenarioEmptyAssetList: an AVS with an opted-in, staked operator whose asset list is emptied
+// for one epoch end and restored before the next: with an empty list every entry must read zero
+// (sum over no assets) and stay, with the list restored the values must be re-priced.
+func vpScenarioEmptyAssetList(env *Env) {
+	cfg := DefaultCfg(env.Report.Seed*1000 + 950)
+	cfg.EpochID = epochstypes.HourEpochID
+	h := &distrHistCfg{cfg: cfg, distrID: epochstypes.WeekEpochID, mintID: epochstypes.WeekEpochID, reward: big.NewInt(0), tax: big.NewInt(0), shrink: map[string]time.Duration{}}
+	c := distrBoot(h)
+	r := &vpRunner{env: env, c: c}
+	r.start("scenario-empty-asset-list")
+	addr := "0x" + fmt.Sprintf("%040x", 0x2000)
+	ids := []string{c.AssetIDs[0]}
+	err := c.CachedDo(func(ctx sdk.Context) error {
+		if err := c.App.AVSManagerKeeper.UpdateAVSInfo(ctx, &avstypes.AVSRegisterOrDeregisterParams{
+			AvsName: "second", AvsAddress: addr, SlashContractAddr: addr, RewardContractAddr: addr,
+			AvsOwnerAddress: []string{c.Funded.Acc.String()}, AssetID: ids, UnbondingPeriod: 2, MinSelfDelegation: 1,
+			EpochIdentifier: epochstypes.MinuteEpochID, MinOptInOperators: 1, MinTotalStakeAmount: 1, AvsReward: 10, AvsSlash: 10,
+			CallerAddress: c.Funded.Acc.String(), Action: 1,
+		}); err != nil {
+			return err
+		}
+		return c.App.OperatorKeeper.OptIn(ctx, c.Operators[0].Acc, addr)
+	})
+	if err != nil {
+		env.Outcome("scenario-empty-asset-list:setup-failed")
+		env.Note("scenario-empty-asset-list setup: " + err.Error()[max(0, len(err.Error())-160):])
+		return
+	}
+	info, _ := c.App.AVSManagerKeeper.GetAVSInfo(c.Ctx, addr)
+	r.op(fmt.Sprintf("vp.avs %s %s %d", addr, info.Info.EpochIdentifier, info.Info.StartingEpoch), "ok")
+	r.op(fmt.Sprintf("vp.optin %s %s", addr, c.Operators[0].Acc), "ok")
+	ok := r.block(61*time.Second) && r.block(61*time.Second) // values computed
+	if ok {
+		r.updateAssets(addr, []string{}, 1, "empty")
+		ok = r.block(61 * time.Second) // epoch end with an empty list
+	}
+	if ok {
+		r.updateAssets(addr, ids, 1, "restore")
+		ok = r.block(61*time.Second) && r.block(61*time.Second)
+	}
+	env.Report.Histories++
+	v, gerr := c.App.OperatorKeeper.GetOperatorOptedUSDValue(c.Ctx, addr, c.Operators[0].Acc.String())
+	env.Outcome(fmt.Sprintf("scenario-empty-asset-list:ok=%v,final-value-positive=%v", ok, gerr == nil && v.TotalUSDValue.IsPositive()))
 }
 
 func domVotingPower(env *Env) error {
@@ -365,6 +438,7 @@ func domVotingPower(env *Env) error {
 			return new(big.Int).Add(rng.BigBelow(pow10(pd+9)), big.NewInt(1)).String()
 		}
 	}
+	vpScenarioEmptyAssetList(env)
 	for hi := 0; hi < n; hi++ {
 		seed := env.Report.Seed*1000 + uint64(hi)
 		cfg := DefaultCfg(seed)
@@ -386,6 +460,7 @@ func domVotingPower(env *Env) error {
 		r := &vpRunner{env: env, c: c}
 		r.start(fmt.Sprintf("random-%d", hi))
 		second := ""
+		var secondMinSelf uint64
 		secondAssets := []int{}
 		nStakers := 0
 		var nonce uint64
@@ -397,7 +472,7 @@ func domVotingPower(env *Env) error {
 		nb := 8 + rng.Intn(maxBlocks)
 		for b := 0; b < nb; b++ {
 			for k := rng.Intn(4); k > 0; k-- {
-				switch rng.Pick(3, 4, 2, 2, 2, 2) {
+				switch rng.Pick(3, 4, 2, 2, 2, 2, 2) {
 				case 0: // price change through the oracle keeper
 					ai := rng.Intn(len(cfg.Assets))
 					tid := uint64(ai + 1)
@@ -479,9 +554,37 @@ func domVotingPower(env *Env) error {
 					env.Outcome(fmt.Sprintf("register-avs:%v", err == nil))
 					if err == nil {
 						second = addr
+						secondMinSelf = minSelf
 						info, _ := c.App.AVSManagerKeeper.GetAVSInfo(c.Ctx, addr)
 						r.op(fmt.Sprintf("vp.avs %s %s %d", strings.ToLower(addr), info.Info.EpochIdentifier, info.Info.StartingEpoch), "ok")
 					}
+				case 6: // the second AVS changes its asset list: empty, everything, a subset, one asset
+					if second == "" {
+						continue
+					}
+					var ids []string
+					tag := ""
+					switch rng.Pick(3, 3, 2, 2) {
+					case 0:
+						tag = "empty"
+					case 1:
+						tag = "all"
+						ids = append(ids, c.AssetIDs...)
+					case 2:
+						tag = "subset"
+						for i := range cfg.Assets {
+							if rng.Chance(1, 2) {
+								ids = append(ids, c.AssetIDs[i])
+							}
+						}
+					case 3:
+						tag = "one"
+						ids = []string{c.AssetIDs[rng.Intn(len(cfg.Assets))]}
+					}
+					if rng.Chance(1, 4) {
+						secondMinSelf = []uint64{0, 1, 100, 2000, 1000000}[rng.Intn(5)]
+					}
+					r.updateAssets(second, ids, secondMinSelf, tag)
 				case 5: // opt in / out of the second AVS
 					if second == "" {
 						continue
